@@ -1,1 +1,166 @@
 //! verif-hooks: dist area (read-only accessors; see mod.rs)
+//!
+//! The parts of a `Dist` (`Vec<(Complex, BigRat)>`) are private to
+//! `crate::num::dist`, and the `Dist` of a number is private to
+//! `crate::num::unit`. Both are read through the existing `serialize`
+//! functions: a number is evaluated with the ordinary evaluator, written with
+//! `Number::serialize`, and the leading `Dist` is decoded here into raw
+//! sign/limb form. Nothing is constructed or modified.
+
+use crate::error::Interrupt;
+use crate::num::verif_access::BigRat;
+use crate::value::Value;
+
+/// A rational as stored (not necessarily in lowest terms): little-endian
+/// base-2^64 limbs of numerator and denominator.
+#[derive(Clone, Debug)]
+pub struct RawRat {
+	pub negative: bool,
+	pub num: Vec<u64>,
+	pub den: Vec<u64>,
+}
+
+/// One `(outcome, probability)` pair of a distribution, in stored order.
+#[derive(Clone, Debug)]
+pub struct RawPart {
+	/// real part of the outcome is a multiple of pi (`Pattern::Pi`)
+	pub re_is_pi: bool,
+	pub re: RawRat,
+	/// imaginary part of the outcome is a multiple of pi
+	pub im_is_pi: bool,
+	pub im: RawRat,
+	pub prob: RawRat,
+	/// `BigRat::into_f64` of the probability (the conversion `sample` and
+	/// `format` use), as IEEE-754 bits
+	pub prob_f64_bits: u64,
+}
+
+struct Cur<'a> {
+	b: &'a [u8],
+	i: usize,
+}
+
+impl Cur<'_> {
+	fn u8(&mut self) -> Option<u8> {
+		let v = *self.b.get(self.i)?;
+		self.i += 1;
+		Some(v)
+	}
+	fn u64(&mut self) -> Option<u64> {
+		let s = self.b.get(self.i..self.i + 8)?;
+		self.i += 8;
+		Some(u64::from_be_bytes([
+			s[0], s[1], s[2], s[3], s[4], s[5], s[6], s[7],
+		]))
+	}
+	fn biguint(&mut self) -> Option<Vec<u64>> {
+		match self.u8()? {
+			1 => Some(vec![self.u64()?]),
+			2 => {
+				let len = usize::try_from(self.u64()?).ok()?;
+				let mut v = Vec::new();
+				for _ in 0..len {
+					v.push(self.u64()?);
+				}
+				Some(v)
+			}
+			_ => None,
+		}
+	}
+	fn bigrat(&mut self) -> Option<RawRat> {
+		let negative = match self.u8()? {
+			1 => true,
+			2 => false,
+			_ => return None,
+		};
+		let num = self.biguint()?;
+		let den = self.biguint()?;
+		Some(RawRat { negative, num, den })
+	}
+	fn real(&mut self) -> Option<(bool, RawRat)> {
+		let is_pi = match self.u8()? {
+			1 => false,
+			2 => true,
+			_ => return None,
+		};
+		Some((is_pi, self.bigrat()?))
+	}
+}
+
+fn parts_of_number(n: &crate::num::Number) -> Result<Vec<RawPart>, String> {
+	let mut buf: Vec<u8> = Vec::new();
+	n.serialize(&mut buf).map_err(|e| e.to_string())?;
+	let mut c = Cur { b: &buf, i: 0 };
+	let bad = || "verif-hooks: cannot decode serialized dist".to_string();
+	let len = c.u64().ok_or_else(bad)?;
+	let mut out = Vec::new();
+	for _ in 0..len {
+		let (re_is_pi, re) = c.real().ok_or_else(bad)?;
+		let (im_is_pi, im) = c.real().ok_or_else(bad)?;
+		let start = c.i;
+		let prob = c.bigrat().ok_or_else(bad)?;
+		let p = BigRat::deserialize(&mut &buf[start..c.i]).map_err(|e| e.to_string())?;
+		let prob_f64_bits = p
+			.into_f64(&crate::interrupt::Never)
+			.map_err(|e| e.to_string())?
+			.to_bits();
+		out.push(RawPart {
+			re_is_pi,
+			re,
+			im_is_pi,
+			im,
+			prob,
+			prob_f64_bits,
+		});
+	}
+	Ok(out)
+}
+
+fn eval_number<I: Interrupt>(
+	expr: &str,
+	ctx: &mut crate::Context,
+	int: &I,
+) -> Result<crate::num::Number, String> {
+	let v = crate::eval::evaluate_to_value(expr, None, crate::eval::Attrs::default(), ctx, int)
+		.map_err(|e| e.to_string())?;
+	match v {
+		Value::Num(n) => Ok(*n),
+		_ => Err("verif-hooks: not a number".to_string()),
+	}
+}
+
+/// Evaluate `expr` with the ordinary evaluator (before the final `simplify`
+/// that formatting applies) on a fresh context whose random source is
+/// `random`, and return the stored parts of the resulting number's `Dist`.
+pub fn eval_parts<I: Interrupt>(
+	expr: &str,
+	random: Option<fn() -> u32>,
+	int: &I,
+) -> Result<Vec<RawPart>, String> {
+	let mut ctx = crate::Context::new();
+	ctx.random_u32 = random;
+	let n = eval_number(expr, &mut ctx, int)?;
+	parts_of_number(&n)
+}
+
+/// Evaluate `expr` once, then run `Number::sample` (hence `Dist::sample`) on
+/// a clone of the result `times` times; `random` is called by `sample` itself
+/// (once per call, unless the distribution has a single point).
+pub fn sample_each<I: Interrupt>(
+	expr: &str,
+	random: fn() -> u32,
+	times: usize,
+	int: &I,
+) -> Result<Vec<Result<Vec<RawPart>, String>>, String> {
+	let mut ctx = crate::Context::new();
+	ctx.random_u32 = Some(random);
+	let n = eval_number(expr, &mut ctx, int)?;
+	let mut out = Vec::with_capacity(times);
+	for _ in 0..times {
+		out.push(match n.clone().sample(&ctx, int) {
+			Ok(s) => parts_of_number(&s),
+			Err(e) => Err(e.to_string()),
+		});
+	}
+	Ok(out)
+}
